@@ -4,7 +4,6 @@ package main
 
 import (
 	"fmt"
-	"go/constant"
 	"go/token"
 	"go/types"
 	"sort"
@@ -473,116 +472,7 @@ func ruleNIter(w *World, r *Report) {
 	}
 	r.FuncsAnalysed[fnName(mn)] = true
 	sel := w.selectMethod()
-	var selCall *ssa.Call
-	eachInstr(mn, false, func(_ *ssa.Function, in ssa.Instruction) {
-		if c, ok := in.(*ssa.Call); ok && c.Call.IsInvoke() && c.Call.Method.Name() == sel {
-			selCall = c
-		}
-	})
-	if selCall == nil {
-		r.bad("N-ITER", "MoveNext:select", w.pos(mn.Pos()), "MoveNext does not pull from the query")
-		return
-	}
-	// the query pulled is the iterator's own
-	if ld, ok := selCall.Call.Value.(*ssa.UnOp); ok {
-		if fa, ok := ld.X.(*ssa.FieldAddr); ok && structOfAddr(fa) == it && fa.Field == qi && isRecv(fa.X) {
-			r.ok("N-ITER", "MoveNext:select", w.instrPos(selCall), "pulls the next node from the iterator's own query, passing itself as context")
-		} else {
-			r.bad("N-ITER", "MoveNext:select", w.instrPos(selCall), "MoveNext pulls from something other than the iterator's query")
-		}
-	}
-	isNodeStore := func(in ssa.Instruction) *ssa.Store {
-		st, ok := in.(*ssa.Store)
-		if !ok {
-			return nil
-		}
-		fa, ok := st.Addr.(*ssa.FieldAddr)
-		if !ok || structOfAddr(fa) != it || fa.Field != ni {
-			return nil
-		}
-		return st
-	}
-	for _, b := range mn.Blocks {
-		ret, ok := normalReturn(b)
-		if !ok {
-			continue
-		}
-		c, isC := retVal(ret, 0).(*ssa.Const)
-		if !isC || c.Value == nil {
-			r.bad("N-ITER", "MoveNext:return", w.instrPos(ret), "MoveNext returns a non-constant")
-			continue
-		}
-		if !constant.BoolVal(c.Value) {
-			// false: under Select == nil, no node store on the way
-			if w.underNilTest(selCall, b) {
-				clean := true
-				for _, bb := range mn.Blocks {
-					if bb == b || bb.Dominates(b) {
-						for _, in := range bb.Instrs {
-							if isNodeStore(in) != nil {
-								clean = false
-							}
-						}
-					}
-				}
-				if clean {
-					r.ok("N-ITER", "MoveNext:false", w.instrPos(ret), "false exactly when the query is exhausted; the node is untouched")
-				} else {
-					r.bad("N-ITER", "MoveNext:false", w.instrPos(ret), "the iterator's node is modified on the exhausted path")
-				}
-			} else {
-				r.bad("N-ITER", "MoveNext:false", w.instrPos(ret), "MoveNext can return false although the query produced a node")
-			}
-			continue
-		}
-		// true: must pass node.MoveTo(n) with n the Select result, false edge -> node = n.Copy()
-		if !w.underNonNilTest(selCall, b) {
-			r.bad("N-ITER", "MoveNext:true", w.instrPos(ret), "MoveNext can return true without a node from the query")
-			continue
-		}
-		var mv *ssa.Call
-		eachInstr(mn, false, func(_ *ssa.Function, in ssa.Instruction) {
-			if cc, ok := in.(*ssa.Call); ok && cc.Call.IsInvoke() && w.navMethodClass(cc.Call.Method.Name()) == "move" && len(cc.Call.Args) == 1 && cc.Call.Args[0] == ssa.Value(selCall) {
-				if ld, ok := cc.Call.Value.(*ssa.UnOp); ok {
-					if fa, ok := ld.X.(*ssa.FieldAddr); ok && structOfAddr(fa) == it && fa.Field == ni {
-						mv = cc
-					}
-				}
-			}
-		})
-		if mv == nil || !instrDominates(mv, ret) {
-			r.bad("N-ITER", "MoveNext:true", w.instrPos(ret), "Current() is not positioned on the node just reported (no node.MoveTo(n) on the way to `return true`)")
-			continue
-		}
-		// failure edge stores a copy
-		okCopy := false
-		for _, u := range uses(mv) {
-			ifi, ok := u.(*ssa.If)
-			if !ok {
-				continue
-			}
-			fe := ifi.Block().Succs[1]
-			for _, in := range fe.Instrs {
-				if st := isNodeStore(in); st != nil {
-					if cp, ok := st.Val.(*ssa.Call); ok && cp.Call.IsInvoke() && w.navMethodClass(cp.Call.Method.Name()) == "copy" && cp.Call.Value == ssa.Value(selCall) {
-						okCopy = true
-					}
-				}
-			}
-		}
-		// any store of the raw Select result into node is aliasing
-		alias := false
-		eachInstr(mn, false, func(_ *ssa.Function, in ssa.Instruction) {
-			if st := isNodeStore(in); st != nil && st.Val == ssa.Value(selCall) {
-				alias = true
-			}
-		})
-		if okCopy && !alias {
-			r.ok("N-ITER", "MoveNext:true", w.instrPos(ret), "node.MoveTo(n), falling back to node = n.Copy(); never aliased with the producer's cursor")
-		} else {
-			r.bad("N-ITER", "MoveNext:true", w.instrPos(ret), "when MoveTo fails the iterator does not take a private copy of the reported node (or aliases the producer's cursor): Current() is not the node just reported or changes under the caller")
-		}
-	}
+	w.checkMoveNextAI(r, it, qi, ni, mn)
 	// (2) constructors
 	en, qidx, _ := w.exprStruct()
 	ncons := 0
@@ -697,110 +587,7 @@ func ruleNIter(w *World, r *Report) {
 			continue
 		}
 		r.FuncsAnalysed[fnName(fn)] = true
-		// entry test on an int state field; non-nil returns dominated by an increment of it
-		ifi := blockIf(fn.Blocks[0])
-		key := qt.Name() + ":once"
-		if ifi == nil {
-			r.bad("N-ITER", key, w.pos(fn.Pos()), "no guard at entry: the context node is produced again and again")
-			continue
-		}
-		cmp, _ := decodeCond(ifi.Cond)
-		var gf *types.Var
-		if cmp != nil {
-			if f, ok := recvFieldLoad(cmp.X); ok {
-				gf = f
-			}
-		}
-		if gf == nil {
-			r.undec("N-ITER", key, w.pos(fn.Pos()), "entry guard not on a state field")
-			continue
-		}
-		// the guard must be false for the re-armed value 0 and true after one increment
-		if k, ok := constInt(cmp.Y); ok {
-			ev := func(x int64) bool {
-				switch cmp.Op {
-				case token.GTR:
-					return x > k
-				case token.GEQ:
-					return x >= k
-				case token.NEQ:
-					return x != k
-				case token.EQL:
-					return x == k
-				case token.LSS:
-					return x < k
-				case token.LEQ:
-					return x <= k
-				}
-				return false
-			}
-			// which successor returns nil?
-			nilOnTrue := false
-			if ret, ok := normalReturn(fn.Blocks[0].Succs[0]); ok && isNilConst(strip(retVal(ret, 0))) {
-				nilOnTrue = true
-			}
-			exhausted := func(x int64) bool { return ev(x) == nilOnTrue }
-			if exhausted(0) || !exhausted(1) {
-				r.bad("N-ITER", key, w.pos(fn.Pos()), fmt.Sprintf("the guard `%s %s %d` does not turn the producer off after exactly one result (armed at 0, incremented once per result): the context node is produced %s", gf.Name(), cmp.Op, k, map[bool]string{true: "never", false: "more than once"}[exhausted(0)]))
-				continue
-			}
-		}
-		okAll := true
-		for _, b := range fn.Blocks {
-			ret, ok := normalReturn(b)
-			if !ok || isNilConst(strip(retVal(ret, 0))) {
-				continue
-			}
-			inc := false
-			for _, bb := range fn.Blocks {
-				if bb == b || bb.Dominates(b) {
-					for _, in := range bb.Instrs {
-						if st, ok := in.(*ssa.Store); ok {
-							if f, ok := recvFieldAddr(st.Addr); ok && f == gf {
-								if bo, ok := st.Val.(*ssa.BinOp); ok && bo.Op == token.ADD {
-									inc = true
-								}
-								if c, ok := st.Val.(*ssa.Const); ok && !isZeroConst(c) {
-									inc = true
-								}
-							}
-						}
-					}
-				}
-			}
-			if !inc {
-				okAll = false
-			}
-		}
-		// the exhausted state is sticky: the path that reports exhaustion does
-		// not write the guard (re-arming is Evaluate's business)
-		rearmed := false
-		for _, b := range fn.Blocks {
-			ret, ok := normalReturn(b)
-			if !ok || !isNilConst(strip(retVal(ret, 0))) {
-				continue
-			}
-			for _, bb := range fn.Blocks {
-				if bb == b || bb.Dominates(b) {
-					for _, in := range bb.Instrs {
-						if st, ok := in.(*ssa.Store); ok {
-							if f, ok := recvFieldAddr(st.Addr); ok && f == gf {
-								rearmed = true
-							}
-						}
-					}
-				}
-			}
-		}
-		if rearmed {
-			r.bad("N-ITER", key, w.pos(fn.Pos()), "the guard "+gf.Name()+" is written on the path that reports exhaustion: after it has answered nil the producer hands out the context node again, so an iterator that was asked once more after MoveNext returned false restarts (from the node it reported last)")
-			continue
-		}
-		if okAll {
-			r.ok("N-ITER", key, w.pos(fn.Pos()), "yields the context once, then nil until Evaluate re-arms it")
-		} else {
-			r.bad("N-ITER", key, w.pos(fn.Pos()), "a node is returned without marking the producer as consumed: MoveNext never turns false / nodes repeat")
-		}
+		w.checkLeafProtocolAI(r, qt, fn)
 	}
 }
 
@@ -939,4 +726,291 @@ func (w *World) allMoversRestore() bool {
 		}
 	}
 	return true
+}
+
+// checkMoveNextAI follows MoveNext (and whatever helpers it calls) by
+// constant propagation for the three things that can happen: the query is
+// exhausted; it yields a node and the held navigator can be moved there; it
+// yields a node and the held navigator cannot be moved there.
+func (w *World) checkMoveNextAI(r *Report, it *types.Named, qi, ni int, mn *ssa.Function) {
+	sel := w.selectMethod()
+	pos := w.pos(mn.Pos())
+	type outcome struct {
+		ret       AVal
+		node      AVal // what the node field holds afterwards
+		movedHeld bool // MoveTo(n) was called on the held navigator
+		selArgIt  bool // Select was called on the iterator's query with the iterator itself as context
+		otherMove bool // some other moving call on the held navigator or on n
+		cut       bool
+		panicked  bool
+	}
+	run := func(exhausted, moveOK bool) []outcome {
+		st := w.initState()
+		itObj := st.newObj(it, nil)
+		itObj.Extern = true
+		itObj.Fields[qi] = AVal{Kind: avUnknown, Tag: "Q"}
+		held := st.newObj(nil, nil)
+		held.Extern = true
+		itObj.Fields[ni] = AVal{Kind: avPtr, Obj: held, Field: -1, Tag: "held"}
+		nObj := st.newObj(nil, nil)
+		nObj.Extern = true
+		var hooks AHooks
+		hooks.Call = func(ai *AInterp, s2 *AState, site ssa.CallInstruction, callee *ssa.Function, args []AVal) (bool, AVal) {
+			com := site.Common()
+			if !com.IsInvoke() || len(args) == 0 {
+				return false, AVal{}
+			}
+			m := com.Method.Name()
+			switch {
+			case args[0].Tag == "Q" && m == sel:
+				ok := len(args) == 2 && args[1].Kind == avPtr && args[1].Obj != nil && args[1].Obj.ID == itObj.ID
+				s2.Trace = append(s2.Trace, AEvent{Kind: "select", Taken: ok})
+				if exhausted {
+					return true, AVal{Kind: avNil}
+				}
+				return true, AVal{Kind: avPtr, Obj: nObj, Field: -1, Tag: "n"}
+			case args[0].Tag == "held" && m == "MoveTo" && len(args) == 2 && args[1].Tag == "n":
+				s2.Trace = append(s2.Trace, AEvent{Kind: "moveto"})
+				return true, aBool(moveOK)
+			case args[0].Tag == "n" && w.navMethodClass(m) == "copy":
+				c := s2.newObj(nil, nil)
+				return true, AVal{Kind: avPtr, Obj: c, Field: -1, Tag: "copy-of-n"}
+			case (args[0].Tag == "held" || args[0].Tag == "n") && w.navMethodClass(m) == "move":
+				s2.Trace = append(s2.Trace, AEvent{Kind: "othermove", Name: m})
+				return true, aUnknown(nil)
+			}
+			return false, AVal{}
+		}
+		ai := w.newInterp(hooks)
+		var outs []outcome
+		for _, o := range ai.Exec(mn, []AVal{{Kind: avPtr, Obj: itObj, Field: -1}}, nil, st) {
+			oc := outcome{ret: o.Ret, cut: o.Cut, panicked: o.Panicked}
+			oc.node = o.St.obj(itObj).Fields[ni]
+			for _, ev := range o.St.Trace {
+				switch ev.Kind {
+				case "select":
+					oc.selArgIt = ev.Taken
+				case "moveto":
+					oc.movedHeld = true
+				case "othermove":
+					oc.otherMove = true
+				}
+			}
+			outs = append(outs, oc)
+		}
+		return outs
+	}
+	judge := func(key, what string, outs []outcome, good func(o outcome) string, okText string) {
+		if len(outs) == 0 {
+			r.undec("N-ITER", key, pos, "MoveNext could not be followed ("+what+")")
+			return
+		}
+		for _, o := range outs {
+			if o.cut {
+				r.undec("N-ITER", key, pos, "a path of MoveNext could not be followed to its end ("+what+")")
+				return
+			}
+			if o.panicked {
+				r.bad("N-ITER", key, pos, what+": MoveNext panics")
+				return
+			}
+			if why := good(o); why != "" {
+				r.bad("N-ITER", key, pos, what+": "+why)
+				return
+			}
+		}
+		r.ok("N-ITER", key, pos, okText)
+	}
+	ex := run(true, false)
+	judge("MoveNext:select", "any call", ex, func(o outcome) string {
+		if !o.selArgIt {
+			return "MoveNext does not pull the next node from the iterator's own query with the iterator itself as context"
+		}
+		return ""
+	}, "pulls the next node from the iterator's own query, passing itself as context")
+	judge("MoveNext:false", "the query is exhausted", ex, func(o outcome) string {
+		if b, ok := o.ret.Bool(); !ok || b {
+			return "MoveNext does not return false"
+		}
+		if o.node.Tag != "held" || o.movedHeld || o.otherMove {
+			return "the iterator's node is modified on the exhausted path"
+		}
+		return ""
+	}, "false exactly when the query is exhausted; the node is untouched")
+	var yes []outcome
+	yes = append(yes, run(false, true)...)
+	nMoved := len(yes)
+	yes = append(yes, run(false, false)...)
+	i := 0
+	judge("MoveNext:true", "the query yields a node", yes, func(o outcome) string {
+		moveOK := i < nMoved
+		i++
+		if b, ok := o.ret.Bool(); !ok || !b {
+			return "MoveNext can return false although the query produced a node"
+		}
+		if o.otherMove {
+			return "the held navigator or the producer's cursor is moved about by something other than MoveTo(n)"
+		}
+		if moveOK {
+			if !o.movedHeld || o.node.Tag != "held" {
+				if o.node.Tag == "n" {
+					return "the iterator aliases the producer's cursor: Current() changes under the caller when the query moves on"
+				}
+				if !o.movedHeld {
+					return "Current() is not positioned on the node just reported (no node.MoveTo(n) on the way to `return true`)"
+				}
+			}
+			return ""
+		}
+		switch o.node.Tag {
+		case "copy-of-n":
+			return ""
+		case "n":
+			return "when MoveTo fails the iterator keeps the producer's own cursor instead of a private copy: Current() changes under the caller"
+		}
+		return "when MoveTo fails the iterator does not take a private copy of the reported node: Current() is not the node just reported"
+	}, "node.MoveTo(n), falling back to node = n.Copy(); never aliased with the producer's cursor")
+}
+
+// checkLeafProtocolAI follows a context-reading leaf query by constant
+// propagation through the life cycle the evaluator puts it through: a fresh
+// object yields the context once; asked again it answers nil, and keeps
+// answering nil; Evaluate re-arms it. Whatever field and representation the
+// guard uses.
+func (w *World) checkLeafProtocolAI(r *Report, qt *QType, selFn *ssa.Function) {
+	key := qt.Name() + ":once"
+	pos := w.pos(selFn.Pos())
+	evFn := qt.Methods[w.evaluateMethod()]
+	st := w.initState()
+	obj := st.newObj(qt.Named, nil)
+	for i := range qt.Fields {
+		_ = i
+	}
+	stt := qt.Named.Underlying().(*types.Struct)
+	for i := 0; i < stt.NumFields(); i++ {
+		obj.Fields[i] = zeroAVal(stt.Field(i).Type())
+	}
+	ctx := st.newObj(nil, nil)
+	ctx.Extern = true
+	var hooks AHooks
+	hooks.Call = func(ai *AInterp, s2 *AState, site ssa.CallInstruction, callee *ssa.Function, args []AVal) (bool, AVal) {
+		com := site.Common()
+		if !com.IsInvoke() || len(args) == 0 {
+			return false, AVal{}
+		}
+		m := com.Method.Name()
+		switch {
+		case args[0].Tag == "iter" && m == "Current":
+			return true, AVal{Kind: avPtr, Obj: ctx, Field: -1, Tag: "ctx"}
+		case w.navMethodClass(m) == "copy":
+			c := s2.newObj(nil, nil)
+			return true, AVal{Kind: avPtr, Obj: c, Field: -1, Tag: "copy"}
+		case w.navMethodClass(m) == "move":
+			return true, aUnknown(nil)
+		}
+		return false, AVal{}
+	}
+	recv := AVal{Kind: avPtr, Obj: obj, Field: -1}
+	iter := AVal{Kind: avUnknown, Tag: "iter"}
+	type stepRes struct {
+		st  *AState
+		nil bool
+	}
+	step := func(from []*AState, fn *ssa.Function, what string) ([]stepRes, string) {
+		var out []stepRes
+		for _, s0 := range from {
+			ai := w.newInterp(hooks)
+			for _, o := range ai.Exec(fn, []AVal{recv, iter}, nil, s0.fork()) {
+				if o.Cut {
+					return nil, what + ": a path could not be followed"
+				}
+				if o.Panicked {
+					return nil, what + ": panics"
+				}
+				out = append(out, stepRes{o.St, o.Ret.Kind == avNil})
+			}
+		}
+		if len(out) == 0 {
+			return nil, what + ": not followed"
+		}
+		return out, ""
+	}
+	states := func(rs []stepRes) []*AState {
+		var o []*AState
+		for _, x := range rs {
+			o = append(o, x.st)
+		}
+		return o
+	}
+	first, why := step([]*AState{st}, selFn, "first Select")
+	if why != "" {
+		r.undec("N-ITER", key, pos, qt.Name()+": "+why)
+		return
+	}
+	for _, x := range first {
+		if x.nil {
+			r.bad("N-ITER", key, pos, qt.Name()+": a fresh producer does not yield the context node (it answers nil at once): the context node is produced never")
+			return
+		}
+	}
+	second, why := step(states(first), selFn, "second Select")
+	if why != "" {
+		r.undec("N-ITER", key, pos, qt.Name()+": "+why)
+		return
+	}
+	for _, x := range second {
+		if !x.nil {
+			r.bad("N-ITER", key, pos, qt.Name()+": asked a second time the producer hands out the context node again (it is not marked as consumed): MoveNext never turns false / nodes repeat — the context node is produced more than once")
+			return
+		}
+	}
+	third, why := step(states(second), selFn, "third Select")
+	if why != "" {
+		r.undec("N-ITER", key, pos, qt.Name()+": "+why)
+		return
+	}
+	for _, x := range third {
+		if !x.nil {
+			r.bad("N-ITER", key, pos, qt.Name()+": after it has answered nil the producer hands out the context node again (the guard is re-armed on the path that reports exhaustion), so an iterator that was asked once more after MoveNext returned false restarts (from the node it reported last)")
+			return
+		}
+	}
+	if evFn != nil {
+		rearmed, why := step(states(third), evFn, "Evaluate")
+		if why == "" {
+			var again []stepRes
+			again, why = step(states(rearmed), selFn, "Select after Evaluate")
+			if why == "" {
+				for _, x := range again {
+					if x.nil {
+						r.bad("N-ITER", key, pos, qt.Name()+": Evaluate does not re-arm the producer: the next evaluation of the expression finds it exhausted")
+						return
+					}
+				}
+			}
+		}
+		if why != "" {
+			r.undec("N-ITER", key, pos, qt.Name()+": "+why)
+			return
+		}
+	}
+	r.ok("N-ITER", key, pos, "yields the context once, then nil until Evaluate re-arms it")
+}
+
+// zeroAVal: the zero value of a field type, as far as the interpreter models it.
+func zeroAVal(t types.Type) AVal {
+	switch u := t.Underlying().(type) {
+	case *types.Basic:
+		switch {
+		case u.Info()&types.IsBoolean != 0:
+			return aBool(false)
+		case u.Info()&types.IsInteger != 0:
+			return aInt(0)
+		case u.Info()&types.IsString != 0:
+			return aStr("")
+		}
+	case *types.Pointer, *types.Interface, *types.Map, *types.Slice, *types.Signature, *types.Chan:
+		return AVal{Kind: avNil}
+	}
+	return aUnknown(nil)
 }
